@@ -72,6 +72,7 @@ class Deployment:
         env = {k: v for k, v in os.environ.items() if not k.startswith('REPLICAT_')}
         env['HOME'] = str(self.wd / 'home')
         env.pop('VERIF_INJECT', None)
+        env['VERIF_NATIVE_GUARD'] = '1'       # (recompiled native chunker only) memory behind a buffer is different in every process
         if inject:
             env['VERIF_INJECT'] = json.dumps(inject)
             env['VERIF_INJECT_ROOT'] = str(self.repo)
@@ -148,7 +149,7 @@ class Scenario:
     # ------------------------------------------------------------------ setup
     def setup(self):
         rng, dep = self.rng, self.dep
-        mn, mx = rng.choice([(16, 64), (8, 32), (32, 96)])
+        mn, mx = rng.choice([(16, 64), (8, 32), (32, 96), (12, 61), (8, 35)])
         flags = ['--chunking.min-length', mn, '--chunking.max-length', mx, '--hashing.length', 32]
         if self.encrypted:
             pw = 'pw0' if rng.random() < 0.7 else 'L' * 70 + 'pw0'
